@@ -37,7 +37,7 @@ CHECKS["C13"] = {
                   "behaviour over the explored value alphabet is covered for those; resolution is judged for every "
                   "configuration",
     "level_note": "bounded: value alphabet {1,2,3,4} / {'ab','cd','ef','gh'} with thresholds inside it, at most 3 fields "
-                  "(UCH, UIN, STR:2; the scan message's MF/ID/SW/HW), at most two conditions combined, clock steps of "
+                  "(UCH, UIN, STR:2; the scan message's MF/ID/SW/HW) plus ignored fillers, fields all in one part, at most two conditions combined, clock steps of "
                   "0 s and 1 s (a gap of n seconds is n steps), depth 6 (thorough 8) where the search does not close "
                   "earlier; trusts the reference (self-tested at every start against an independent evaluation of the "
                   "documented value-list syntax and hand traces), the interposed time() and the canonical abstraction, "
@@ -46,8 +46,12 @@ CHECKS["C13"] = {
     "rule": "configuration = family (simple, alternative definitions under complementary conditions, AND of two on one or "
             "two messages, derived on the fly [k=..]/[k<..]/[k>=..] from a defined condition with or without values, scan "
             "condition on the identification message) x shape (list 1;3, range 2-3, <3, >2, <=2, >=3, mixed 1;3-4, one "
-            "string, string list, no values) x layout (all 14 layouts of 1..3 numeric/string fields; thorough also "
-            "two-byte numerics) x field reference (each named field of the right kind, of the wrong kind, unnamed, a "
+            "string, string list, no values) x layout (all 14 layouts of 1..3 numeric/string fields; 11 layouts with ignored "
+            "filler bytes IGN:1/IGN:2 before, between and after the fields; 12 layouts with the fields - with and without "
+            "filler - in the master part of an active read message or of a passive write message; thorough also two-byte "
+            "numerics and 14 more filler layouts; filler bytes always differ from the value of the field behind them and "
+            "give the opposite verdict for at least one stored vector of every shape, self-tested; combined and derived "
+            "conditions over filler layouts too) x field reference (each named field of the right kind, of the wrong kind, unnamed, a "
             "missing name, missing message). Per resolvable configuration: BFS over histories of S<m>:<v> (store value "
             "vector v of message m: the judged field takes alphabet value v, every other field a rotated value so that a "
             "wrong field gives a wrong verdict), T (clock +1 s), Q (isAvailable, find by name, find by telegram). A state "
@@ -57,8 +61,8 @@ CHECKS["C13"] = {
             "available iff every part is satisfied by the most recently stored value (never stored: not available; "
             "without values: stored at least once); find() returns the guarded definition iff available (the "
             "alternative one iff its complementary condition holds). Oracle at load: resolveConditions succeeds iff "
-            "message and field of the required kind exist; unnamed with a first field of the other kind is not judged "
-            "(statement open). states = distinct (configuration, canonical state); transitions = operations executed on "
+            "message and field of the required kind exist; an ignored filler is not a field ('first field' = first field "
+            "that is not ignored); unnamed with a first field of the other kind is not judged (statement open). states = distinct (configuration, canonical state); transitions = operations executed on "
             "the real objects incl. replays; traces validated = judged queries + judged resolutions; distinct = states "
             "after at least one operation.",
     "assumptions": [
@@ -71,9 +75,9 @@ CHECKS["C13"] = {
         "deps": ["engines/msgmc/c13_config.h"],
         "variant": "plain", "libset": "core",
         "quick": {"parts": 16, "args": ["--depth", 6], "deadline": 400,
-                  "bounds": "720 configurations, depth 6, alphabet of 4 values per field, cross-check depth 4"},
+                  "bounds": "1403 configurations (incl. filler / master-part layouts), depth 6, alphabet of 4 values per field, cross-check depth 4"},
         "thorough": {"parts": 16, "args": ["--depth", 8], "deadline": 900,
-                     "bounds": "1043 configurations (adds two-byte numeric fields), depth 8, cross-check depth 4"},
+                     "bounds": "2147 configurations (adds two-byte numeric fields and more filler layouts), depth 8, cross-check depth 4"},
     }],
 }
 
